@@ -14,7 +14,7 @@ import MobiusModel.Spec.Tables
   guard skeleton (obligations at the end) and by the decision-table run of the harness.
 -/
 namespace Mobius.C05
-open Mobius.Spec Mobius.Authz AccessBitmap
+open Mobius.Spec Mobius.Authz AccessBitmap PathAlg
 
 /-- (sound) A privileged effect is performed only if the request asks for it and the requester holds
     the privilege the protocol assigns to that effect. -/
@@ -95,6 +95,57 @@ theorem all_privileges_never_denied (acc : AccessBitmap) (h : ∀ p ∈ definedB
   apply h
   cases e <;> decide
 
+/-! ### the folder kind that governs uploads and listings is the kind of the folder the request acts on -/
+
+/-- `ReadPath` acts below `root ++ addressedFolder items` – for all item lists (items containing `/`, `.`, `..`, empty items). -/
+theorem readPath_acts_in_addressed_folder (root : List Comp) (items : List Bytes) (name : Bytes) :
+    readPath root items name = root ++ (addressedFolder items ++ joinRooted [] name) := by
+  unfold readPath addressedFolder
+  have hsub := items_normal items [] (by simp)
+  have hnm := joinRooted_normal [] name (by simp)
+  exact foldl_step_of_normal _ _ (by
+    intro c hc; simp at hc; rcases hc with hc | hc
+    · exact hsub c hc
+    · exact hnm c hc)
+
+/-- An upload whose path field addresses (after joining and cleaning ALL items) a folder that is neither an upload
+    folder nor a drop box is performed only with upload-anywhere (bit 25), and refused with the handler's text otherwise. -/
+theorem upload_outside_upload_folders_needs_anywhere (acc : AccessBitmap) (items : List Bytes) (ex : Bool)
+    (hp : placeOfItems items = .plain) :
+    (Effect.uploadFile ∈ (run acc (.uploadFile (placeOfItems items) ex)).effects → acc.isSet Priv.uploadAnywhere = true) ∧
+    (Effect.uploadFolder ∈ (run acc (.uploadFldr (placeOfItems items))).effects → acc.isSet Priv.uploadAnywhere = true) ∧
+    (acc.isSet Priv.uploadFile = true → acc.isSet Priv.uploadAnywhere = false →
+      (run acc (.uploadFile (placeOfItems items) ex)) = deny .uploadFileAnywhere) ∧
+    (acc.isSet Priv.uploadFolder = true → acc.isSet Priv.uploadAnywhere = false →
+      (run acc (.uploadFldr (placeOfItems items))) = deny .uploadFolderAnywhere) := by
+  rw [hp]
+  cases h1 : acc.isSet Priv.uploadFile <;> cases h2 : acc.isSet Priv.uploadAnywhere <;>
+    cases h3 : acc.isSet Priv.uploadFolder <;> cases ex <;>
+    simp [run, uploadRule, Authz.guard, deny, refuse, proceed, h1, h2, h3]
+
+/-- Listing a path field that addresses a drop box proceeds only with view-drop-boxes (bit 30). -/
+theorem drop_box_listing_needs_view (acc : AccessBitmap) (items : List Bytes) (hp : placeOfItems items = .dropBox) :
+    ((run acc (.getFileNameList (placeOfItems items))).verdict = .proceeded → acc.isSet Priv.viewDropBoxes = true) ∧
+    (acc.isSet Priv.viewDropBoxes = false → run acc (.getFileNameList (placeOfItems items)) = deny .viewDropBoxes) := by
+  rw [hp]
+  cases h : acc.isSet Priv.viewDropBoxes <;> simp [run, Authz.guard, deny, proceed, h]
+
+private def bs (s : String) : Bytes := s.toUTF8.toList
+example : placeOfItems [bs "Uploads/../Private"] = .plain := by decide +kernel
+example : placeOfItems [bs "Drop Box", bs "."] = .dropBox := by decide +kernel
+example : placeOfItems [bs "Drop Box", bs "x", bs ".."] = .dropBox := by decide +kernel
+example : placeOfItems [bs "Uploads", bs ""] = .uploads := by decide +kernel
+example : placeOfItems [bs "plain/../My DROP Box/."] = .dropBox := by decide +kernel
+example : placeOfItems [bs "Uploads", bs ".."] = .plain ∧ placeOfItems [] = .plain := by decide +kernel
+
+/-- Two path fields addressing the same folder are decided alike (the raw items do not matter). -/
+theorem same_folder_same_decision (acc : AccessBitmap) (i1 i2 : List Bytes) (h : addressedFolder i1 = addressedFolder i2) (ex : Bool) :
+    run acc (.uploadFile (placeOfItems i1) ex) = run acc (.uploadFile (placeOfItems i2) ex) ∧
+    run acc (.uploadFldr (placeOfItems i1)) = run acc (.uploadFldr (placeOfItems i2)) ∧
+    run acc (.getFileNameList (placeOfItems i1)) = run acc (.getFileNameList (placeOfItems i2)) := by
+  have : placeOfItems i1 = placeOfItems i2 := by unfold placeOfItems; rw [h]
+  rw [this]; exact ⟨rfl, rfl, rfl⟩
+
 /-! ### Obligations over the facts regenerated from /repo's source on every run -/
 
 /-- The 43 registered transaction types and their handlers are the expected ones. -/
@@ -148,5 +199,15 @@ theorem deny_messages_are_the_models :
 /-- … and every denial of the model occurs in the source. -/
 theorem model_denials_occur_in_source :
     ∀ m ∈ DenyMsg.all, (Generated.denyMessages.any fun d => d.2.2 == m.source) = true := by decide +kernel
+
+/-- The folder-kind checks of the source look at the folder the path resolves to: `IsDropbox` / `IsUploadDir` test
+    `resolvedName()`, which runs the same per-item `filepath.Join("/", subPath, item)` loop as `ReadPath`
+    (= `addressedFolder`) and takes its base name ("" for the root). -/
+theorem place_checks_use_the_resolved_folder : Generated.placeChecks = [
+    ("IsDropbox", "{ return strings.Contains(strings.ToLower(fp.resolvedName()), \"drop box\") }"),
+    ("IsUploadDir", "{ return strings.Contains(strings.ToLower(fp.resolvedName()), \"upload\") }"),
+    ("resolvedName", "{ var subPath string for _, pathItem := range fp.Items { subPath = filepath.Join(\"/\", subPath, string(pathItem.Name)) } if subPath == \"\" || subPath == \"/\" { return \"\" } return filepath.Base(subPath) }"),
+    ("ReadPath.loop", "for _, pathItem := range fp.Items { subPath = filepath.Join(\"/\", subPath, string(pathItem.Name)) }")] := by
+  decide +kernel
 
 end Mobius.C05
